@@ -537,14 +537,21 @@ def _judge(trace, pi, oi, rec, log, stats, tainted, cold_dir, env):
         log.append(('keys', tuple(keys)))
         for i in range(len(keys)):
             for j in range(i + 1, len(keys)):
-                if trace['settings'][i] != trace['settings'][j] and keys[i] == keys[j]:
+                if keys[i] == keys[j] and _sem(trace['settings'][i]) != _sem(trace['settings'][j]):
                     raise Viol('C12/cache-key-collision', f'settings {trace["settings"][i]} and {trace["settings"][j]} share '
-                                                          f'cache key {keys[i]}')
+                                                          f'cache key {keys[i]} although they denote different connection '
+                                                          f'sets')
         stats['key_pairs'] += len(keys) * (len(keys) - 1) // 2
     else:
         log.append((kind, pi, oi, rec['status']))
         if rec['status'] == 'exc' and not tainted:
             raise Viol(f'C12/{kind}-raises/{rec["exc"][0]}', f'{where}: {rec["exc"]}')
+
+
+def _sem(spec):
+    """What a settings spec denotes: per existence pattern (addressed by index) its valid connection matrices. Two specs
+    are different settings exactly if this differs (an implementation may normalise equivalent spellings to one key)."""
+    return [(tuple(p['src']), tuple(p['tgt']), tuple(ref_conn.matrices(spec, p))) for p in ref_conn.all_patterns(spec)]
 
 
 def _producer(trace, pi, oi):
@@ -619,6 +626,8 @@ def generate(seed, tier='quick', index=0):
     s = Streams(seed)
     rng = s('gen')
     base = gen_settings.gen_settings_spec(rng, degenerate=rng.random() < 0.15)
+    if rng.random() < 0.06:
+        base = gen_settings.gen_parallel_spec(rng)
     settings = [base]
     if rng.random() < 0.6:
         v = gen_settings.variant(rng, base)
@@ -647,6 +656,31 @@ def generate(seed, tier='quick', index=0):
                 ops.append([k])
         ph = {'ops': ops, 'disk_faults': []}
         phases.append(ph)
+    return {'property': PROPERTY, 'engine': ENGINE, 'seed': seed, 'settings': settings, 'phases': phases,
+            'env_seed': s.int_seed('env'), 'config': 'in-contract'}
+
+
+def generate_keys(seed, tier='quick', index=0):
+    """Cache-key scenario: a family of up to 8 settings grown from one base by single-attribute edits (incl. explicit vs
+    unset parallel limit, permuted patterns, transposes); all keys are compared, then members of the family fill and
+    read the matrix caches one after the other (second phase: another process on the same directory)."""
+    s = Streams(seed)
+    rng = s('gen')
+    par = rng.random() < 0.3
+    base = gen_settings.gen_parallel_spec(rng) if par else gen_settings.gen_settings_spec(rng, p_patterns=0.8)
+    settings = [base]
+    for k in range(rng.randint(3, 7)):
+        v = gen_settings.variant(rng, rng.choice(settings), kinds=['max_par'] if par and k < 2 else None)
+        if v not in settings:
+            settings.append(v)
+    orng = s('ops')
+    phases = []
+    for p in range(2):
+        ops = [['keys']] if p == 0 else []
+        for _ in range(orng.randint(2, 5)):
+            si = orng.randrange(len(settings))
+            ops.append(orng.choice([['agg', si, True], ['agg', si, True], ['iter', si, orng.randrange(8)]]))
+        phases.append({'ops': ops, 'disk_faults': []})
     return {'property': PROPERTY, 'engine': ENGINE, 'seed': seed, 'settings': settings, 'phases': phases,
             'env_seed': s.int_seed('env'), 'config': 'in-contract'}
 
@@ -928,7 +962,10 @@ RULE = ('Runs: (a) in-contract sessions over 1-3 generated connector settings (i
         'shared private cache directory: select(cache on/off, limited calls killed at drawn delivery points, candidates '
         'rejecting, tiny limits), aggregate matrix, per-pattern matrix iteration, counts, cache resets, cache keys; every returned manager is validated '
         'against brute-force R-conn and, when it came through a cache, against the same selection recomputed without any '
-        'cache under the same fault plan; (b) the same with cache files torn/lost/flipped between phases (explicit errors '
+        'cache under the same fault plan; (a2) cache-key families: up to 8 settings grown from one base by single-attribute '
+        'edits (degrees, repetition flag, exclusions, patterns added/removed/permuted, transpose, explicit vs unset parallel '
+        'limit) - settings that denote different connection sets (R-conn) must have different keys, and members fill and '
+        'read the matrix caches one after the other in two processes; (b) the same with cache files torn/lost/flipped between phases (explicit errors '
         'accepted, wrong data never); (c) kill-point enumeration: every (strided) delivery point of one limited call of a '
         'cold selection, then an unlimited selection through the cache in a fresh process. evaluations = sessions / '
         'enumeration sub-runs completed; non-trivial = a limiter kill, a candidate rejection, a cache hit or a disk fault '
@@ -938,8 +975,10 @@ COMPONENTS = {'real': ['EncoderSelector, all registered encoders and imputers, A
               'stub': ['run_timeout -> virtual limiter (kill at delivery point k / candidate raises)', 'process restarts = '
                        'fresh forks of the pristine image', 'disk faults applied to the cache directory between phases',
                        'np.random / random seeds']}
-ASSUMPTIONS = ['R-conn: per-pair cap = 0 (excluded) / 1 (an end forbids repetition) / min of the two maximum degrees; '
-               'open-ended nodes are generated non-repeating so that no undocumented parallel limit matters.',
+ASSUMPTIONS = ['R-conn: per-pair cap = 0 (excluded) / 1 (an end forbids repetition) / min of the parallel limit and the two '
+               'maximum degrees; the parallel limit is the explicit max_conn_parallel or, when unset, max(2, largest degree '
+               'of a bounded node present in the pattern) - the documented default applied to the nodes of the pattern '
+               '(validated against the unchanged library on 6 000 generated (settings, pattern) pairs: 0 differences).',
                'Transparency is judged against a recomputation under the same fault plan and seeds.',
                '<= 3x3 connectors, degrees <= 3, <= 4 existence patterns.']
 WALL_BUDGET = {'quick': 100.0, 'thorough': 700.0}
@@ -949,5 +988,7 @@ DETERMINISM_RERUNS = {'quick': 4, 'thorough': 16}
 def jobs(tier, batch_seed):
     from simkit.driver import std_jobs
     if tier == 'thorough':
-        return std_jobs([('generate_enum', 32), ('generate_bridge', 48), ('generate', 20000), ('generate_disk', 6000)], batch_seed)
-    return std_jobs([('generate_enum', 2), ('generate_bridge', 3), ('generate', 130), ('generate_disk', 40)], batch_seed)
+        return std_jobs([('generate_enum', 32), ('generate_bridge', 48), ('generate_keys', 4000), ('generate', 20000),
+                         ('generate_disk', 6000)], batch_seed)
+    return std_jobs([('generate_enum', 2), ('generate_bridge', 3), ('generate_keys', 60), ('generate', 130),
+                     ('generate_disk', 40)], batch_seed)
